@@ -5,25 +5,31 @@ from __future__ import annotations
 import ast
 
 from .. import astq
-from ..cfg import cfg_of
-from ..classflow import EXEMPT_ROOTS, Closure, callable_names, is_rejector
-from ..dataflow import ReachingDefs, bound_in_enclosing_comp
-from ..loader import AnalysisError, BuiltinClass, ClassInfo, FuncInfo, dotted, norm, walk_no_nested
+from ..classflow import EXEMPT_ROOTS, Closure, callable_names
+from ..loader import AnalysisError, BuiltinClass, ClassInfo, FuncInfo, dotted, norm
 from ..report import Ctx
-from ._shared import headerset_insertion_rule, headerset_order_rule
+from . import _c16_helpers as H
+from ._shared import headerset_insertion_rule, headerset_order_rule, headerset_roles
 
 LEVEL_TEXT = (
     "Static decision of structural clauses of C08 on /repo's current source: (R8.1) on every class with an Immutable*Mixin "
     "in its MRO, no public or special method name resolved in that MRO reaches a primitive mutation of the underlying "
     "storage (builtin list/dict mutators, stores into the object's attributes) except through a method that raises "
-    "TypeError on every path - exhaustive over typeshed's mutator tables and the class's own methods; (R8.2) in the "
-    "case-insensitive containers every comparison with a lower-cased operand has a lower-cased operand on the other side "
-    "(flow-sensitive); (R8.3) HeaderSet methods mutate list and set together; (R8.4) per-key lists stored, copied or "
-    "returned by MultiDict are fresh objects except the three documented pass-through methods; (R8.5) the environ-backed "
-    "view keeps no state of its own; (R8.6) hash material of immutable multi dicts is no finer than their equality. "
-    "It decides these clauses on all paths, not conformance of every read with the abstract model after every history."
+    "TypeError on every path (helpers followed) and changes nothing first - exhaustive over typeshed's mutator tables "
+    "and the class's own methods. The remaining clauses are decided by path-wise symbolic execution over the inlined "
+    "call graph (private methods, module-level helpers, super() calls followed; values through locals, tuple "
+    "assignments, conditional expressions and comprehensions resolved to terms): (R8.2) in the case-insensitive "
+    "containers every evaluated comparison with a lower-cased operand has a lower-cased operand on the other side; "
+    "(R8.3) every public HeaderSet method changes list and set together, grows the list one element at a time under "
+    "that element's own membership test, drops before it adds, and only hands lower-cased members to the set (the two "
+    "attributes are identified by what the constructor stores); (R8.4) per-key lists stored, copied or returned by "
+    "MultiDict are objects created on the spot except the documented pass-through methods; (R8.5) the environ-backed "
+    "view keeps no state of its own, its methods read the environ, and no inherited reader touches the unused private "
+    "list; (R8.6) hash material of immutable multi dicts is no finer than their equality and is a hashed frozenset of "
+    "the hash items (also when memoised). It decides these clauses on all paths, not conformance of every read with "
+    "the abstract model after every history; generator bodies of callees and implicit exceptions are not followed."
 )
-TRUSTED = ["CPython ast", "typeshed method tables of list/dict/MutableSet/MutableMapping/MutableSequence (bundled with the repo's mypy, read as text)", "Python MRO (C3) and super() semantics"]
+TRUSTED = ["CPython ast", "typeshed method tables of list/dict/MutableSet/MutableMapping/MutableSequence (bundled with the repo's mypy, read as text)", "Python MRO (C3) and super() semantics", "builtin container semantics: dict.pop / set.discard / remove change the container iff the key is present, setdefault iff it is absent"]
 ASSUMPTIONS = ["private helpers (single underscore) are reachable only through public methods of the same class", "constructors and the pickle/copy protocol are exempt from R8.1 (they initialise a new object)"]
 
 CI_CLASSES = ["datastructures.headers.Headers", "datastructures.structures.HeaderSet"]
@@ -85,84 +91,113 @@ def run(ctx: Ctx) -> None:
             for name, fi in c.methods.items():
                 if name in EXEMPT_ROOTS or name.startswith("_") and not name.startswith("__") or name in ("__hash__", "copy", "__copy__"):
                     continue
-                ok, why = is_rejector(repo, fi)
+                ok, why = _rejects(repo, c, fi)
                 nrej += 1
                 ctx.ob("R8.1", f"{c.name}.{name} rejects", ok, why, fi, fi.node, f"rejector {c.name}.{name}")
     ctx.floor("R8.1", "mixin rejectors", nrej, 39)
 
     # ---------------- R8.2 -------------------------------------------
+    LOWERED_SETS.clear()
+    LOWERED_SETS.add(headerset_roles(repo)[1])  # HeaderSet's set attribute holds lower-cased members (R8.3 + constructor)
     ncmp = 0
     for cfq in CI_CLASSES:
-        c = repo.cls(cfq)
-        for name, fi in c.methods.items():
-            ncmp += _casefold_rule(ctx, fi)
+        ncmp += _casefold_rule(ctx, repo.cls(cfq))
     # subclasses overriding key comparison (EnvironHeaders has its own normalisation: upper/replace) are handled by R8.5
     ctx.floor("R8.2", "case-folded comparisons", ncmp, 9)
 
     # ---------------- R8.3 -------------------------------------------
     hs = repo.cls("datastructures.structures.HeaderSet")
-    cl = Closure(repo, hs)
+    LIST, SET = headerset_roles(repo)
+    LOWERED_SETS.clear()
+    LOWERED_SETS.add(SET)
     npair = 0
-    for name, fi in hs.methods.items():
+    members: dict[tuple[str, int], dict] = {}
+
+    def on_event(a, ev, st):
+        if ev[0] == "mut" and ev[1] in (LIST, SET):
+            a = a | {(ev[1], H.norm(ev[-2]))}
+        if ev[0] == "op" and ev[1] == SET and ev[3]:
+            low = None
+            if ev[2] in ("add", "remove", "discard", "__contains__"):
+                low = H.is_lowered(ev[3][0])
+            elif ev[2] in ("update", "difference_update", "intersection_update", "symmetric_difference_update", "__ior__", "__isub__", "__iand__", "__ixor__"):
+                low = H.lowered_elements(ev[3][0], LOWERED_SETS)
+            elif ev[2] == "store":
+                c = H.const_of(ev[3][0])
+                low = (c is not H._NOCONST and not c) or H.lowered_elements(ev[3][0], LOWERED_SETS)
+            if low is not None:
+                d = members.setdefault((ev[-1].fq if ev[-1] else "", id(ev[-2])), {"fi": ev[-1], "node": ev[-2], "op": ev[2], "ok": True, "arg": ev[3][0]})
+                d["ok"] = d["ok"] and low
+        return a
+
+    for name, fi in sorted(hs.methods.items()):
+        public = not name.startswith("_") or (name.startswith("__") and name.endswith("__"))
+        if not public:
+            continue  # private helpers are judged inlined into their callers
+        ex = H.Exec(repo, hs, on_event=on_event)
+        outs = ex.run_function(fi, auto0=frozenset())
         if name == "__init__":
             continue
-        sites = cl.prim_sites(fi)
-        a = [s for s in sites if "_headers" in s.desc]
-        b = [s for s in sites if "_set" in s.desc]
+        touched = set().union(*[o.st.auto for o in outs]) if outs else set()
+        a = sorted(d for l, d in touched if l == LIST)
+        b = sorted(d for l, d in touched if l == SET)
         if a or b:
             npair += 1
-            ctx.ob("R8.3", f"HeaderSet.{name} mutates both structures", bool(a) and bool(b), f"_headers: {[s.desc for s in a]}; _set: {[s.desc for s in b]}", fi, fi.node, f"HeaderSet.{name} pairing")
+            ctx.ob("R8.3", f"HeaderSet.{name} mutates both structures", bool(a) and bool(b), f"{LIST}: {a}; {SET}: {b}", fi, fi.node, f"HeaderSet.{name} pairing")
     ctx.floor("R8.3", "HeaderSet mutating methods", npair, 5)
     ctx.floor("R8.3", "HeaderSet list growth sites", headerset_insertion_rule(ctx, "R8.3"), 1)
     ctx.floor("R8.3", "HeaderSet methods that drop and add a key", headerset_order_rule(ctx, "R8.3"), 1)
-    # members added to _set are lower-cased, constructor builds _set from _headers lower-cased
-    for name, fi in hs.methods.items():
-        for call in astq.calls(fi.node):
-            if isinstance(call.func, ast.Attribute) and call.func.attr in ("add", "remove", "discard") and astq.is_self_attr(call.func.value, "_set"):
-                arg = call.args[0]
-                low = _is_lowered(arg, fi, cfg_of(fi), ReachingDefs(cfg_of(fi), fi.params))
-                ctx.ob("R8.3", f"HeaderSet.{name}: _set.{call.func.attr} gets a lower-cased member", low, norm(call), fi, call, norm(call))
+    # members put into / looked up in _set are lower-cased; the constructor builds _set from lower-cased items
+    for d in sorted(members.values(), key=lambda d: (d["fi"].fq if d["fi"] else "", getattr(d["node"], "lineno", 0))):
+        fi = d["fi"]
+        nm = fi.name if fi is not None else "?"
+        ctx.ob("R8.3", f"HeaderSet.{nm}: _set.{d['op']} gets a lower-cased member", d["ok"], f"{norm(d['node'])}: argument `{d['arg']}`", fi or hs.fq, d["node"], norm(d["node"]))
+    ctx.floor("R8.3", "writes of the lower-case set", len(members), 4)
 
     # ---------------- R8.4 -------------------------------------------
     _freshness(ctx)
 
     # ---------------- R8.5 -------------------------------------------
     eh = repo.cls("datastructures.headers.EnvironHeaders")
+    hd = repo.cls("datastructures.headers.Headers")
     stores = []
-    for name, fi in eh.methods.items():
-        for n in walk_no_nested(fi.node):
-            if isinstance(n, (ast.Assign, ast.AugAssign, ast.AnnAssign)):
-                tg = n.targets if isinstance(n, ast.Assign) else [n.target]
-                for t_ in tg:
-                    for e in ast.walk(t_):
-                        if isinstance(e, ast.Attribute) and isinstance(e.value, ast.Name) and e.value.id == "self" and isinstance(e.ctx, ast.Store):
-                            stores.append((name, e.attr, fi, n))
+    readers: dict[str, dict] = {}
+    for name, fi in sorted(eh.methods.items()):
+        evs, outs = _events(repo, eh, fi, ("mut", "store", "read", "compare"))
+        for e in evs:
+            if e[0] == "mut" and e[-1] is not None and e[-1].cls is eh:
+                stores.append((name, e[1], fi, e[-2]))
+            elif e[0] == "store" and e[1] == H.SELF and e[-1] is not None and e[-1].cls is eh:
+                stores.append((name, e[2], fi, e[-2]))
+        direct = any(e[0] == "read" and e[1] == "environ" for e in evs) or any(e[0] == "compare" and ("__self__.environ" in e[2] or "__self__.environ" in e[3]) for e in evs)
+        iterates = any(e[0] == "read" and e[1] == "" and e[2] != "__init__" for e in evs) or any(e[0] == "compare" and H.SELF in (e[2], e[3]) for e in evs)
+        readers[name] = {"fi": fi, "direct": direct, "iterates": iterates, "returns": any(o.kind == "ret" for o in outs)}
     only_init = all(m == "__init__" and a == "environ" for m, a, _, _ in stores)
     ctx.ob("R8.5", "EnvironHeaders stores only self.environ, only in __init__", only_init and len(stores) == 1, f"attribute stores: {[(m, a) for m, a, _, _ in stores]}", eh.methods["__init__"], eh.node, "environ-only state")
     nread = 0
-    for name in ("__getitem__", "_get_key", "__len__", "__iter__", "__eq__"):
-        fi = eh.methods.get(name)
-        if fi is None:
-            continue
-        reads = any(astq.is_self_attr(n, "environ") for n in ast.walk(fi.node)) or any(isinstance(g, ast.comprehension) and astq.is_name(g.iter, "self") for g in ast.walk(fi.node)) or any(isinstance(c_.func, ast.Attribute) and isinstance(c_.func.value, ast.Name) and c_.func.value.id == "self" and c_.func.attr in ("_get_key", "__iter__") for c_ in astq.calls(fi.node)) or any(isinstance(n, ast.Call) and dotted(n.func) in ("iter", "list") and n.args and astq.is_name(n.args[0], "self") for n in ast.walk(fi.node))
+    iter_reads = readers.get("__iter__", {}).get("direct", False)
+    for name, d in sorted(readers.items()):
+        if name == "__init__" or not d["returns"]:
+            continue  # the constructor, and methods that always raise (copy / |)
+        reads = d["direct"] or (d["iterates"] and iter_reads)
         nread += 1
-        ctx.ob("R8.5", f"EnvironHeaders.{name} reads the environ", reads, "uses self.environ (directly or through _get_key / iteration)", fi, fi.node, f"EnvironHeaders.{name} reads environ")
+        ctx.ob("R8.5", f"EnvironHeaders.{name} reads the environ", reads, "uses self.environ (directly, through a helper, or by iterating itself)", d["fi"], d["fi"].node, f"EnvironHeaders.{name} reads environ")
     ctx.floor("R8.5", "read methods", nread, 4)
-    # the inherited readers that would touch Headers._list must be overridden: every Headers method that reads self._list directly and is not a rejector on EnvironHeaders
-    hd = repo.cls("datastructures.headers.Headers")
-    leaks = []
-    for name in sorted(callable_names(repo, eh)):
-        owner, what = repo.lookup(eh, name)
-        if isinstance(what, FuncInfo) and owner is hd:
-            if any(astq.is_self_attr(n, "_list") for n in walk_no_nested(what.node)):
-                leaks.append(name)
-    allowed = {"__init__"}
+    # the inherited readers that would touch Headers' private list must be overridden: every Headers method that reads
+    # it (itself or through the private helpers that EnvironHeaders does not override) and is not a rejector on EnvironHeaders
+    lists = {s_.desc.split(".")[1] for nm in ("add", "clear", "set") for _, s_ in Closure(repo, hd).reach(nm, stop_at_rejectors=False) if s_.desc.startswith("self.")}
+    if not lists:
+        raise AnalysisError("Headers: private list not identified")
     ecl = Closure(repo, eh)
-    for nm in leaks:
-        if nm in allowed or nm in EXEMPT_ROOTS or ecl.reach(nm):
+    for nm in sorted(callable_names(repo, eh)):
+        owner, what = repo.lookup(eh, nm)
+        if not (isinstance(what, FuncInfo) and owner is hd) or nm in EXEMPT_ROOTS or ecl.reach(nm):
             continue  # mutating ones are R8.1's business
-        fi = hd.methods[nm]
-        ctx.ob("R8.5", f"EnvironHeaders.{nm} does not read the unused private list", False, f"inherited Headers.{nm} touches self._list, which EnvironHeaders never fills", fi, fi.node, f"EnvironHeaders inherits list reader {nm}")
+        seen: list[tuple] = []
+        ex = H.Exec(repo, eh, on_event=lambda a, ev, st, seen=seen: (seen.append(ev) if ev[0] in ("read", "op") and ev[1] in lists else None) or a, inline_public=False)
+        ex.run_function(what, auto0=None)
+        if seen:
+            ctx.ob("R8.5", f"EnvironHeaders.{nm} does not read the unused private list", False, f"inherited Headers.{nm} touches self.{seen[0][1]} (`{norm(seen[0][-2])}`), which EnvironHeaders never fills", what, what.node, f"EnvironHeaders inherits list reader {nm}")
 
     # ---------------- R8.6 -------------------------------------------
     n86 = 0
@@ -172,168 +207,282 @@ def run(ctx: Ctx) -> None:
             continue
         eo, ew = repo.lookup(c, "__eq__")
         order_free_eq = isinstance(eo, BuiltinClass)
-        positional = any(dotted(cl_.func) in ("enumerate", "zip", "range") for cl_ in astq.calls(h.node))
+        entered: list[FuncInfo] = [h]
+        ex = H.Exec(repo, c, on_event=lambda a, ev, st, entered=entered: (entered.append(ev[-1]) if ev[0] == "enter" and ev[-1] is not None and ev[-1].name.startswith("_") else None) or a)
+        houts = ex.run_function(h, auto0=None)
+        texts = [o_.value for o_ in houts if o_.kind == "ret"]
+        positional = any(dotted(cl_.func) in ("enumerate", "zip", "range") for f_ in entered for cl_ in astq.calls(f_.node)) or any(
+            isinstance(x, ast.Call) and dotted(x.func) in ("enumerate", "zip", "range") for t_ in texts for x in ast.walk(H.P(t_))
+        )
         n86 += 1
         ok = not (order_free_eq and positional)
         ctx.ob("R8.6", f"{c.name} hash material vs equality", ok, f"__eq__ from {eo.name if eo else '?'} ({'order-insensitive' if order_free_eq else 'own'}), _iter_hashitems from {o.name} {'uses positions' if positional else 'position-free'}", h, h.node, f"{c.name} hash material")
         ho, hh = repo.lookup(c, "__hash__")
         if isinstance(hh, FuncInfo):
-            uses = any(isinstance(cl_.func, ast.Attribute) and cl_.func.attr == "_iter_hashitems" for cl_ in astq.calls(hh.node)) and any(dotted(cl_.func) == "frozenset" for cl_ in astq.calls(hh.node))
-            ctx.ob("R8.6", f"{c.name}.__hash__ hashes the frozenset of its hash items", uses, f"__hash__ from {ho.name}", hh, hh.node, f"{c.name} hash shape")
+            ent2: list[str] = []
+            cached: list[str] = []
+
+            def on_hash(a, ev, st, ent2=ent2, cached=cached):
+                if ev[0] == "enter":
+                    ent2.append(ev[1])
+                elif ev[0] == "store" and ev[1] == H.SELF and ev[2] in H.CACHE_ATTRS:
+                    cached.append(ev[3])  # the value memoised for later calls is hash material too
+                return a
+
+            ex = H.Exec(repo, c, on_event=on_hash)
+            vals = sorted({o_.value for o_ in ex.run_function(hh, auto0=None) if o_.kind == "ret"} | set(cached))
+
+            def hashed_set(v: str) -> bool:
+                n_ = H.P(v)
+                return isinstance(n_, ast.Call) and dotted(n_.func) == "hash" and len(n_.args) == 1 and isinstance(n_.args[0], ast.Call) and dotted(n_.args[0].func) in ("frozenset", "set")
+
+            computed = [v for v in vals if H.loc_of(v) is None]
+            uses = "_iter_hashitems" in ent2 and bool(computed) and all(hashed_set(v) for v in computed)
+            ctx.ob("R8.6", f"{c.name}.__hash__ hashes the frozenset of its hash items", uses, f"__hash__ from {ho.name} returns {vals}", hh, hh.node, f"{c.name} hash shape")
     ctx.floor("R8.6", "classes with hash items", n86, 5)
 
 
 # ---------------------------------------------------------------------
 
 
-def _is_lowered(e: ast.AST, fi: FuncInfo, cfg, rd: ReachingDefs, depth: int = 0) -> bool:
-    if isinstance(e, ast.Call) and isinstance(e.func, ast.Attribute) and e.func.attr in ("lower", "casefold") and not e.args:
-        return True
-    if isinstance(e, ast.Name) and depth < 4:
-        g = bound_in_enclosing_comp(e, fi.node)
-        if g is not None:
-            return False
-        node = cfg.node_of(e)
-        if node is None:
-            return False
-        defs = rd.reaching(node, e.id)
-        if not defs:
-            return False
-        for d in defs:
-            if d.kind not in ("assign", "walrus") or d.value is None or d.index is not None:
-                return False
-            if not _is_lowered(d.value, fi, cfg, rd, depth + 1):
-                return False
-        return True
-    if isinstance(e, ast.Constant) and isinstance(e.value, str):
-        return e.value == e.value.lower()
-    return False
+def _rejects(repo, c: ClassInfo, fi: FuncInfo) -> tuple[bool, str]:
+    """every path of the method (helpers followed) ends by raising TypeError, and nothing is changed before."""
+    changed: list[tuple] = []
+    ex = H.Exec(repo, c, on_event=lambda a, ev, st: (changed.append(ev) if ev[0] == "mut" else None) or a)
+    outs = ex.run_function(fi, auto0=None)
+    if any(o.kind == "ret" for o in outs):
+        return False, "has a normally-completing path"
+    kinds = sorted({o.value for o in outs})
+    if changed:
+        return False, f"changes the object before raising: {norm(changed[0][-2])}"
+    if kinds == ["TypeError"]:
+        return True, "raises TypeError on every path"
+    return False, f"raises {kinds}"
 
 
-def _mentions_lowered(e: ast.AST, fi: FuncInfo, cfg, rd) -> bool:
-    if _is_lowered(e, fi, cfg, rd):
-        return True
-    if isinstance(e, ast.Attribute) and isinstance(e.value, ast.Name) and e.value.id == "self" and e.attr in LOWERED_SETS:
-        return True
-    return False
+STR_METHODS_RAW = {"upper", "title", "strip", "lstrip", "rstrip", "capitalize", "swapcase", "replace", "format", "join", "decode", "encode"}
 
 
-def _casefold_rule(ctx: Ctx, fi: FuncInfo) -> int:
-    cfg = cfg_of(fi)
-    rd = ReachingDefs(cfg, fi.params)
-    n = 0
-    for cmp_ in [x for x in ast.walk(fi.node) if isinstance(x, ast.Compare)]:
-        if len(cmp_.ops) != 1 or not isinstance(cmp_.ops[0], (ast.Eq, ast.NotEq, ast.In, ast.NotIn)):
+def _caseness(term: str, collection: bool) -> str:
+    """'lowered' | 'raw' | 'unknown' for an operand of a comparison."""
+    if collection:
+        if H.lowered_elements(term, LOWERED_SETS):
+            return "lowered"
+    elif H.is_lowered(term):
+        return "lowered"
+    n = H.P(term)
+    if isinstance(n, ast.Call):
+        if isinstance(n.func, ast.Attribute) and n.func.attr in STR_METHODS_RAW | H.PURE_METHODS:
+            return "raw"
+        d = dotted(n.func)
+        if d in ("str", "repr", "list", "tuple", "set", "frozenset", "sorted", "iter", "map", "dict", "enumerate", "zip", "reversed"):
+            return "raw"
+        return "unknown"
+    return "raw"
+
+
+def _casefold_rule(ctx: Ctx, c: ClassInfo) -> int:
+    """every evaluated comparison (== != in not-in) of the class's methods - private helpers and module-level helpers
+    inlined into the public methods that call them, comprehension filters included - that has a lower-cased operand
+    has a lower-cased operand on the other side too (operands are the executor's terms, so a key lower-cased in
+    the caller, through a local, a tuple assignment or a conditional expression is seen as lower-cased)."""
+    repo = ctx.repo
+    found: dict[tuple[str, int], dict] = {}
+
+    def on_event(a, ev, st):
+        if ev[0] != "compare" or ev[1] not in ("Eq", "NotEq", "In", "NotIn"):
+            return a
+        node, fi = ev[-2], ev[-1]
+        if isinstance(node, ast.Compare) and (isinstance(node.left, ast.Constant) or isinstance(node.comparators[0], ast.Constant)):
+            return a
+        coll = ev[1] in ("In", "NotIn")
+        ka, kb = _caseness(ev[2], False), _caseness(ev[3], coll)
+        if H.const_of(ev[2]) is not H._NOCONST or H.const_of(ev[3]) is not H._NOCONST:
+            return a
+        if ka != "lowered" and kb != "lowered":
+            return a
+        d = found.setdefault((fi.fq if fi else "", id(node)), {"fi": fi, "node": node, "ok": True, "sides": (ka, kb), "terms": (ev[2], ev[3])})
+        if not (ka == "lowered" and kb == "lowered"):
+            d["ok"] = False
+            d["sides"] = (ka, kb)
+            d["terms"] = (ev[2], ev[3])
+        return a
+
+    for name, fi in sorted(c.methods.items()):
+        public = not name.startswith("_") or (name.startswith("__") and name.endswith("__"))
+        if not public and _called_in_class(c, name):
             continue
-        a, b = cmp_.left, cmp_.comparators[0]
-        la, lb = _mentions_lowered(a, fi, cfg, rd), _mentions_lowered(b, fi, cfg, rd)
-        if not (la or lb):
-            continue
-        if isinstance(a, ast.Constant) or isinstance(b, ast.Constant):
-            continue
-        n += 1
+        ex = H.Exec(repo, c, on_event=on_event, inline_public=False)
+        ex.run_function(fi, auto0=None)
+    for d in sorted(found.values(), key=lambda d: (d["fi"].fq if d["fi"] else "", getattr(d["node"], "lineno", 0))):
+        fi, cmp_ = d["fi"], d["node"]
+        if not d["ok"] and "unknown" in d["sides"]:
+            raise AnalysisError(f"{fi.fq if fi else c.fq}: cannot decide whether `{d['terms'][0 if d['sides'][0] == 'unknown' else 1]}` in `{norm(cmp_)}` is lower-cased")
         ctx.ob(
             "R8.2",
-            f"{fi.qualname}: `{norm(cmp_)}`",
-            la and lb,
-            f"left {'lower-cased' if la else 'RAW'}, right {'lower-cased' if lb else 'RAW'}",
-            fi,
+            f"{fi.qualname if fi else c.name}: `{norm(cmp_)}`",
+            d["ok"],
+            f"left {'lower-cased' if d['sides'][0] == 'lowered' else 'RAW'} (`{d['terms'][0]}`), right {'lower-cased' if d['sides'][1] == 'lowered' else 'RAW'} (`{d['terms'][1]}`)",
+            fi or c.fq,
             cmp_,
             norm(cmp_),
         )
-    return n
+    return len(found)
 
 
-def _fresh(e: ast.AST | None, fi: FuncInfo, cfg, rd: ReachingDefs, depth: int = 0) -> bool:
-    if e is None:
-        return False
-    if isinstance(e, (ast.List, ast.ListComp)):
-        return True
-    if isinstance(e, ast.Call):
-        d = dotted(e.func)
-        if d in ("list", "sorted"):
-            return True
-        if isinstance(e.func, ast.Attribute) and e.func.attr == "copy" and not e.args:
-            return True
-    if isinstance(e, ast.Subscript) and isinstance(e.slice, ast.Slice):
-        return True
-    if isinstance(e, ast.Name) and depth < 4:
-        node = cfg.node_of(e)
-        if node is None:
-            return False
-        defs = rd.reaching(node, e.id)
-        if not defs:
-            return False
-        return all(d.kind == "assign" and d.index is None and _fresh(d.value, fi, cfg, rd, depth + 1) for d in defs)
+def _called_in_class(c: ClassInfo, name: str) -> bool:
+    """is the private method called by another method of the class (then it is analysed inlined into its callers)?"""
+    for other, fi in c.methods.items():
+        if other == name:
+            continue
+        for x in ast.walk(fi.node):
+            if isinstance(x, ast.Attribute) and x.attr == name:
+                return True
     return False
 
 
+def _fresh(term: str | None) -> bool:
+    """the term denotes a list object created here (nobody else holds a reference to it)."""
+    if term is None:
+        return False
+    if term in ("__nonempty_list__", "__maybe_list__"):
+        return True  # a local list literal that was grown on the way
+    n = H.P(term)
+    if isinstance(n, (ast.List, ast.ListComp)):
+        return True
+    if isinstance(n, ast.Call):
+        d = dotted(n.func)
+        if d in ("list", "sorted"):
+            return True
+        if isinstance(n.func, ast.Attribute) and n.func.attr == "copy" and not n.args:
+            return True
+    if isinstance(n, ast.Subscript) and isinstance(n.slice, ast.Slice):
+        return True
+    if isinstance(n, ast.IfExp):
+        return _fresh(H.text(n.body)) and _fresh(H.text(n.orelse))
+    if isinstance(n, ast.BinOp) and isinstance(n.op, ast.Add):
+        return _fresh(H.text(n.left)) or _fresh(H.text(n.right))
+    return False
+
+
+def _events(repo, cls: ClassInfo, fi: FuncInfo, kinds: tuple[str, ...]) -> tuple[list[tuple], list]:
+    seen: list[tuple] = []
+    ids: set[tuple] = set()
+
+    def on_event(a, ev, st):
+        if ev[0] in kinds:
+            k = (ev[0], id(ev[-2]), ev[1:-2])
+            if k not in ids:
+                ids.add(k)
+                seen.append(ev)
+        return a
+
+    ex = H.Exec(repo, cls, on_event=on_event)
+    outs = ex.run_function(fi, auto0=None)
+    return seen, outs
+
+
+def _is_local_dict(term: str) -> bool:
+    c = H.const_of(term)
+    return (c is not H._NOCONST and isinstance(c, dict)) or term in ("__nonempty_dict__", "__maybe_dict__")
+
+
 def _freshness(ctx: Ctx) -> None:
+    """per-key lists stored, copied or handed out by MultiDict are objects created on the spot.  Decided on the
+    executor's events of each method (calls into private helpers / super() followed, values through locals, tuple
+    assignments and conditional expressions resolved to their terms)."""
     repo = ctx.repo
     md = repo.cls("datastructures.structures.MultiDict")
     cmd = repo.cls("datastructures.structures.CombinedMultiDict")
     n = 0
 
-    def rdof(fi):
-        cfg = cfg_of(fi)
-        return cfg, ReachingDefs(cfg, fi.params)
-
-    # (1) stores of a per-key list through dict.__setitem__
+    # (1) stores of a per-key list into the underlying dict
     for name in ("__setitem__", "setlist", "setlistdefault"):
         fi = md.methods.get(name)
         if fi is None:
             raise AnalysisError(f"MultiDict.{name} missing")
-        cfg, rd = rdof(fi)
-        found = 0
-        for c in astq.method_calls(fi.node, "__setitem__"):
-            if len(c.args) == 2:
-                found += 1
-                n += 1
-                ctx.ob("R8.4", f"MultiDict.{name} stores a fresh list", _fresh(c.args[1], fi, cfg, rd), norm(c), fi, c, norm(c))
-        if not found:
-            ctx.ob("R8.4", f"MultiDict.{name} stores through dict.__setitem__", False, "no super().__setitem__(key, <list>) found", fi, fi.node, f"{name} store")
-    # (2) setdefault(key, []) before append/extend
+        evs, _ = _events(repo, md, fi, ("op",))
+        stores = [e for e in evs if e[1] == "" and e[2] == "__setitem__" and len(e[3]) == 2]
+        for e in stores:
+            n += 1
+            ctx.ob("R8.4", f"MultiDict.{name} stores a fresh list", _fresh(e[3][1]), f"{norm(e[-2])}: stores `{e[3][1]}`", e[-1] or fi, e[-2], norm(e[-2]))
+        if not stores:
+            ctx.ob("R8.4", f"MultiDict.{name} stores through dict.__setitem__", False, "no store of a list into the underlying dict found", fi, fi.node, f"{name} store")
+    # (2) a new key gets a list of its own: setdefault(key, []) on the underlying dict / a dict under construction
     for cls, name in ((md, "add"), (md, "__init__"), (cmd, "lists")):
         fi = cls.methods[name]
-        for c in astq.method_calls(fi.node, "setdefault"):
-            if len(c.args) == 2:
+        evs, _ = _events(repo, cls, fi, ("op", "mcall"))
+        for e in evs:
+            if e[2] == "setdefault" and len(e[3]) == 2 and (e[0] == "op" and e[1] == "" or e[0] == "mcall" and _is_local_dict(e[1])):
                 n += 1
-                ctx.ob("R8.4", f"{cls.name}.{name}: new key gets a fresh list", isinstance(c.args[1], ast.List) and not c.args[1].elts, norm(c), fi, c, norm(c))
+                c = H.const_of(e[3][1])
+                ctx.ob("R8.4", f"{cls.name}.{name}: new key gets a fresh list", isinstance(c, list) and not c, f"{norm(e[-2])}: default `{e[3][1]}`", e[-1] or fi, e[-2], norm(e[-2]))
     # (3) getlist returns
     for cls in (md, cmd):
         fi = cls.methods["getlist"]
-        cfg, rd = rdof(fi)
-        for r in astq.returns_of(fi.node):
+        evs, _ = _events(repo, cls, fi, ("return",))
+        for e in evs:
+            if e[-1] is not fi:
+                continue
             n += 1
-            ctx.ob("R8.4", f"{cls.name}.getlist returns a fresh list", _fresh(r.value, fi, cfg, rd), norm(r), fi, r, norm(r))
+            ctx.ob("R8.4", f"{cls.name}.getlist returns a fresh list", _fresh(e[1]), f"{norm(e[-2])}: returns `{e[1]}`", fi, e[-2], norm(e[-2]))
     # (4) lists yields
     fi = md.methods["lists"]
-    cfg, rd = rdof(fi)
-    ys = [y for y in ast.walk(fi.node) if isinstance(y, ast.Yield)]
-    for y in ys:
-        ok = isinstance(y.value, ast.Tuple) and len(y.value.elts) == 2 and _fresh(y.value.elts[1], fi, cfg, rd)
+    evs, _ = _events(repo, md, fi, ("yield",))
+    for e in evs:
+        v = H.P(e[1])
+        ok = isinstance(v, ast.Tuple) and len(v.elts) == 2 and _fresh(H.text(v.elts[1]))
         n += 1
-        ctx.ob("R8.4", "MultiDict.lists yields fresh lists", ok, norm(y), fi, y, norm(y))
-    if not ys:
+        ctx.ob("R8.4", "MultiDict.lists yields fresh lists", ok, f"yields `{e[1]}`", fi, e[-2], norm(e[-2]))
+    if not evs:
         ctx.ob("R8.4", "MultiDict.lists yields fresh lists", False, "no yield found", fi, fi.node, "lists yield")
-    # (5) constructor copies
+    # (5) constructor copies: what is handed to dict.__init__ holds lists of its own
     fi = md.methods["__init__"]
-    cfg, rd = rdof(fi)
-    gens = [g for g in ast.walk(fi.node) if isinstance(g, ast.GeneratorExp)]
-    for g in gens:
-        ok = isinstance(g.elt, ast.Tuple) and len(g.elt.elts) == 2 and _fresh(g.elt.elts[1], fi, cfg, rd)
-        n += 1
-        ctx.ob("R8.4", "MultiDict(MultiDict) copies each list", ok, norm(g), fi, g, norm(g))
-    for st in walk_no_nested(fi.node):
-        if isinstance(st, ast.Assign) and isinstance(st.targets[0], ast.Subscript) and astq.is_name(st.targets[0].value, "tmp"):
+    evs, _ = _events(repo, md, fi, ("read", "storeitem"))
+    for e in evs:
+        if e[0] == "read" and e[1] == "" and e[2] == "__init__" and e[3]:
+            g = H.P(e[3][0])
+            if isinstance(g, (ast.GeneratorExp, ast.ListComp)):
+                ok = isinstance(g.elt, ast.Tuple) and len(g.elt.elts) == 2 and _fresh(H.text(g.elt.elts[1]))
+                n += 1
+                src = next((x for x in ast.walk(e[-2]) if isinstance(x, (ast.GeneratorExp, ast.ListComp))), e[-2])
+                ctx.ob("R8.4", "MultiDict(MultiDict) copies each list", ok, f"dict.__init__({e[3][0]})", fi, src, norm(src))
+        elif e[0] == "storeitem" and _is_local_dict(e[1]):
             n += 1
-            ctx.ob("R8.4", "MultiDict(mapping) stores fresh lists", _fresh(st.value, fi, cfg, rd), norm(st), fi, st, norm(st))
-    # (6) copies go through the constructor / to_dict(flat=False) -> lists
-    for name, must in (("copy", "self.__class__(self)"), ("to_dict", "dict(self.lists())"), ("deepcopy", "deepcopy(")):
-        fi = md.methods[name]
-        n += 1
-        ctx.ob("R8.4", f"MultiDict.{name} copies through the copying constructor / lists()", any(must in norm(r) for r in astq.returns_of(fi.node)), f"returns {[norm(r) for r in astq.returns_of(fi.node)]}", fi, fi.node, f"{name} shape")
-    fi = cmd.methods["copy"]
+            ctx.ob("R8.4", "MultiDict(mapping) stores fresh lists", _fresh(e[3]), f"{norm(e[-2])}: stores `{e[3]}`", fi, e[-2], norm(e[-2]))
+    # (6) copies go through the copying constructor / to_dict(flat=False) -> lists()
+    def class_call_on(term: str, arg_ok) -> bool:
+        c = H.P(term)
+        if not (isinstance(c, ast.Call) and len(c.args) == 1 and not c.keywords):
+            return False
+        f = H.text(c.func)
+        if f != "type(__self__)":
+            k = repo.try_cls(repo.resolve(md.module, f) or "") if H.re.match(r"^[A-Za-z_][\w.]*$", f) else None
+            if k is None or not any(x is md for x in repo.mro(k)):
+                return False
+        return arg_ok(H.text(c.args[0]))
+
+    def rets(cls, name):
+        fi_ = cls.methods[name]
+        evs_, outs_ = _events(repo, cls, fi_, ())
+        return fi_, sorted({o.value for o in outs_ if o.kind == "ret"})
+
+    fi, vals = rets(md, "copy")
     n += 1
-    ctx.ob("R8.4", "CombinedMultiDict.copy builds a MultiDict from itself", any("MultiDict(self)" in norm(r) for r in astq.returns_of(fi.node)), "", fi, fi.node, "combined copy")
+    ctx.ob("R8.4", "MultiDict.copy copies through the copying constructor / lists()", bool(vals) and all(class_call_on(v, lambda a: a == H.SELF) for v in vals), f"returns {vals}", fi, fi.node, "copy shape")
+    fi = md.methods["to_dict"]
+    if not fi.params[1:]:
+        raise AnalysisError("MultiDict.to_dict(flat) expected")
+    ex = H.Exec(repo, md)
+    vals = sorted({o.value for o in ex.run_function(fi, args=[None, "False"]) if o.kind == "ret"})
+    from_lists = lambda v: (lambda c: isinstance(c, ast.Call) and dotted(c.func) == "dict" and len(c.args) == 1 and H.text(c.args[0]).startswith("__gen_lists__("))(H.P(v))  # noqa: E731
+    n += 1
+    ctx.ob("R8.4", "MultiDict.to_dict copies through the copying constructor / lists()", bool(vals) and all(from_lists(v) for v in vals), f"to_dict(flat=False) returns {vals}", fi, fi.node, "to_dict shape")
+    fi, vals = rets(md, "deepcopy")
+    n += 1
+    is_deep = lambda a: (lambda c: isinstance(c, ast.Call) and (dotted(c.func) or "").rsplit(".", 1)[-1] == "deepcopy")(H.P(a))  # noqa: E731
+    ctx.ob("R8.4", "MultiDict.deepcopy copies through the copying constructor / lists()", bool(vals) and all(class_call_on(v, is_deep) for v in vals), f"returns {vals}", fi, fi.node, "deepcopy shape")
+    fi, vals = rets(cmd, "copy")
+    n += 1
+    ctx.ob("R8.4", "CombinedMultiDict.copy builds a MultiDict from itself", bool(vals) and all(class_call_on(v, lambda a: a == H.SELF) for v in vals), f"returns {vals}", fi, fi.node, "combined copy")
     ctx.floor("R8.4", "freshness sites", n, 14)
